@@ -399,10 +399,18 @@ def r5(ctx, modname):
     ctx.check(ok, R, f"{gen}:{nm}", m, f.node, f"for number, name in names.items(): self._zones[number] = {g['zone_cls']}(number, name, socket)", found)
     f = fn_of(ctx, modname, f"{g['cls']}._process_ac_ability_message")
     loops = [s for s in f.node.body if isinstance(s, ast.For)]
-    ctx.require(len(loops) == 1 and isinstance(loops[0].target, ast.Name), f"{m.relpath}: _process_ac_ability_message is no longer one loop over the records")
+    ctx.require(len(loops) == 1, f"{m.relpath}: _process_ac_ability_message is no longer one loop over the records")
     lp = loops[0]
-    v = lp.target.id
-    ctx.check(norm_text(lp.iter) == f.params[1] and not any(isinstance(x, (ast.Break, ast.Return, ast.Continue)) for x in ast.walk(lp)), R, f"{gen}:ability:every-record", m, lp, "one AC per ability record, no early exit", norm_text(lp.iter))
+    it = lp.iter
+    if isinstance(lp.target, ast.Tuple) and len(lp.target.elts) == 2 and all(isinstance(e, ast.Name) for e in lp.target.elts) and isinstance(it, ast.Call) and dotted(it.func) == "enumerate" and it.args:
+        # `for i, record in enumerate(records)`: the record variable is the second target; the position is not the AC number
+        v = lp.target.elts[1].id
+        it = it.args[0]
+    else:
+        ctx.require(isinstance(lp.target, ast.Name), f"{m.relpath}: _process_ac_ability_message is no longer one loop over the records")
+        v = lp.target.id
+    ctx.check(norm_text(it) == f.params[1] and not any(isinstance(x, (ast.Break, ast.Return, ast.Continue)) for x in ast.walk(lp)), R, f"{gen}:ability:every-record", m, lp, "one AC per ability record, no early exit", norm_text(lp.iter))
+    lp_iter_saved = lp.iter
     # AC construction
     sts = [s for s in lp.body if isinstance(s, ast.Assign) and norm_text(s.targets[0]).startswith("self._air_conditioners[")]
     ok = False
